@@ -43,6 +43,7 @@ from inspect import signature
 from typing import Any, AnyStr, Union, Callable, Dict, Iterable, Sequence, Optional, List, Tuple, cast
 
 import attr
+import astor.code_gen
 import astor.op_util
 from docutils import nodes
 from twisted.web.template import Tag
@@ -170,6 +171,27 @@ class _OperatorDelimiter:
             self.colorizer._output('(', self.colorizer.GROUP_TAG, self.state)
             self.state.result.extend(trimmed)
             self.colorizer._output(')', self.colorizer.GROUP_TAG, self.state)
+
+class _SourceGenerator(astor.code_gen.SourceGenerator): # type:ignore[misc]
+    """
+    The source generator of the nodes that are not explicitely handled by the colorizer.
+    """
+    if sys.version_info >= (3, 9):
+        def visit_JoinedStr(self, node: ast.JoinedStr) -> None:
+            # astor quotes the source code of the replacement fields as if it was
+            # a part of the literal text: it doubles the backslashes of the strings and
+            # turns the braces of a set or dict display into escaped braces.
+            self.write(ast.unparse(node))
+
+    def visit_Slice(self, node: ast.Slice) -> None:
+        # astor gives the bounds of a slice the precedence of the elements of the subscript,
+        # where a tuple needs no parenthesis: x[(a, b):c] would read x[a, b:c].
+        astor.code_gen.set_precedence(astor.op_util.Precedence.Comma, node.lower, node.upper, node.step)
+        self.conditional_write(node.lower)
+        self.write(':')
+        self.conditional_write(node.upper)
+        if node.step is not None:
+            self.write(':', node.step)
 
 class _Maxlines(Exception):
     """A control-flow exception that is raised when PyvalColorizer
@@ -792,7 +814,7 @@ class PyvalColorizer:
 
     def _colorize_ast_generic(self, pyval: ast.AST, state: _ColorizerState) -> None:
         try:
-            source = astor.to_source(pyval).strip()
+            source = astor.to_source(pyval, source_generator_class=_SourceGenerator).strip()
         except Exception: #  No defined handler for node of type <type>
             state.result.append(self.UNKNOWN_REPR)
         else:
